@@ -3,8 +3,10 @@
 
     * `Pat`            first-tag patterns (what the decoders test a peeked tag against)
     * `Info`           per type: possible first tags, nullable, patterns that must
-                       not follow an encoding (`confus`), and whether the type lies
-                       in the fragment the generic round-trip proof covers (`sup`)
+                       not follow an encoding (`confus`), and whether the decoder
+                       fails with InvalidTag / DecodingError on any other first tag
+                       (`ff`: what the try / restore path of an optional structure
+                       without context relies on)
     * `mkInfo env`     one bottom-up pass computing the table
     * `wfEnv env I`    the LL(1)-style well-formedness of an environment w.r.t. a
                        table: the table is consistent with the environment,
@@ -55,7 +57,7 @@ structure Info where
   first : List Pat      -- possible first tags of a non-empty encoding
   nullable : Bool       -- some value encodes to no tag at all
   confus : List Pat     -- a tag following an encoding must match none of these (or be a closing tag / the end)
-  sup : Bool            -- in the fragment covered by `codec_roundtrip_partial`
+  ff : Bool             -- a first tag outside `first` makes the decoder raise InvalidTag / DecodingError
 deriving DecidableEq, Repr, Inhabited
 
 abbrev Table := Array Info
@@ -100,17 +102,21 @@ def fieldSane (env : Env) (I : Table) (τ : Nat) (f : Field) : Bool :=
   | .anyAtomic, none => true
   | .seqOf j, some _ | .listOf j, some _ | .struct j, some _ => j < τ
   | .seqOf j, none | .listOf j, none => j < τ && !f.opt
-  | .struct j, none => j < τ && !(look I j).nullable
+  | .struct j, none =>
+      -- optional: decoded on a backup; "omitted" is recognised by the inner decoder
+      -- failing with InvalidTag / DecodingError (`except (DecodingError, InvalidTag)`)
+      j < τ && !(look I j).nullable && (!f.opt || (look I j).ff)
   | .bad, _ => false
 
-/-- the element is covered by the generic proof (milestone 1: everything except
-    an OPTIONAL structure without context, which decodes through try / restore) -/
-def fieldSup (env : Env) (I : Table) (f : Field) : Bool :=
+/-- the decoder of the element fails with InvalidTag (or passes on such a failure
+    of the structure inside) when the tag is not one of its first tags -/
+def fieldFF (env : Env) (I : Table) (f : Field) : Bool :=
+  !f.opt &&
   match kindOf env f.ref, f.ctx with
-  | .prim _, _ | .anyAtomic, _ => true
-  | .seqOf j, some _ | .listOf j, some _ | .struct j, some _ => (look I j).sup
-  | .seqOf j, none | .listOf j, none | .struct j, none => (look I j).sup && !f.opt
-  | .bad, _ => false
+  | .prim _, some _ => true                                   -- "expected context tag"
+  | .listOf _, some _ | .struct _, some _ => true             -- "expected opening tag"
+  | .struct j, none => (look I j).ff
+  | _, _ => false      -- application-tagged: InvalidParameterDatatype; SequenceOf: MissingRequiredParameter
 
 /-! ### sequences -/
 
@@ -140,12 +146,6 @@ def altSane (env : Env) (τ : Nat) (a : Field) : Bool :=
   | .seqOf j, some _ | .listOf j, some _ | .struct j, some _ => j < τ
   | _, _ => false      -- AnyAtomic alternatives never decode; constructed ones need a context
 
-def altSup (env : Env) (I : Table) (a : Field) : Bool :=
-  match kindOf env a.ref, a.ctx with
-  | .prim _, _ => true
-  | .seqOf j, some _ | .listOf j, some _ | .struct j, some _ => (look I j).sup
-  | _, _ => false
-
 /-- pairwise disjoint first tags -/
 def altsDisj (env : Env) (I : Table) : List Field → Bool
   | [] => true
@@ -168,28 +168,22 @@ def elemSane (env : Env) (I : Table) (τ : Nat) (elem : Ref) : Bool :=
       j < τ && !(look I j).nullable && disjAll (look I j).confus (look I j).first
   | .bad => false
 
-def elemSup (env : Env) (I : Table) (elem : Ref) : Bool :=
-  match kindOf env elem with
-  | .prim _ => true
-  | .anyAtomic => false
-  | .seqOf j | .listOf j | .struct j => (look I j).sup
-  | .bad => false
-
 /-! ### the table -/
 
 def infoOf (env : Env) (I : Table) : TyDef → Info
   | .seq fs =>
       { first := firstFields env I fs, nullable := nullableFields env I fs,
-        confus := confusFields env I fs, sup := fs.all (fieldSup env I) }
+        confus := confusFields env I fs,
+        ff := (match fs with | f :: _ => fieldFF env I f | [] => false) }
   | .choice alts =>
       { first := alts.flatMap (fieldFirst env I), nullable := false, confus := [],
-        sup := alts.all (altSup env I) }
+        ff := true }
   | .list _ elem fixed =>
       { first := elemFirst env I elem,
         nullable := (match fixed with | some (_ + 1) => false | _ => true),
-        confus := [.anyTag], sup := elemSup env I elem }
-  | .any => { first := [.anyTag], nullable := true, confus := [.anyTag], sup := true }
-  | .nameValue _ => { first := [.ctx 0], nullable := false, confus := [.anyApp], sup := false }
+        confus := [.anyTag], ff := false }
+  | .any => { first := [.anyTag], nullable := true, confus := [.anyTag], ff := false }
+  | .nameValue _ => { first := [.ctx 0], nullable := false, confus := [.anyApp], ff := false }
 
 /-- local well-formedness of the definition at index τ -/
 def defOK (env : Env) (I : Table) (τ : Nat) : TyDef → Bool
@@ -215,9 +209,10 @@ def entryOK (env : Env) (I : Table) (τ : Nat) : Bool :=
 def wfEnv (env : Env) (I : Table) : Bool :=
   I.size == env.size && (List.range env.size).all (entryOK env I)
 
+/-- the types the generic theorem applies to: every well-formed entry -/
 def provedTypes (env : Env) : List Nat :=
   let I := mkInfo env
-  (List.range env.size).filter fun τ => (look I τ).sup
+  (List.range env.size).filter fun τ => entryOK env I τ
 
 def badTypes (env : Env) : List Nat :=
   let I := mkInfo env
